@@ -261,8 +261,21 @@ pub fn gen_pair(ch: &mut Choices, id: u64) -> Option<Pair> {
 pub fn gen_lex_pair(ch: &mut Choices, id: u64) -> Pair {
     use crate::genr::lexspec::{RenderOpts, gen_al, render};
     let al = gen_al(ch, 5);
-    let o = RenderOpts::generate(ch, al.rules.len(), true);
+    // flags in the %grmtools section, or (1/3) through the builder's methods and no section
+    let via_builder = ch.chance(1, 3);
+    let o = RenderOpts::generate(ch, al.rules.len(), !via_builder);
     let (ltext, _) = render(&al, &o);
+    let mut settings = serde_json::Map::new();
+    if via_builder {
+        let mut fl = serde_json::Map::new();
+        for (k, v) in al.flags.entries() {
+            fl.insert(k.to_string(), json!(v));
+        }
+        for (k, v) in al.flags.num_entries() {
+            fl.insert(k.to_string(), json!(v));
+        }
+        settings.insert("builder_flags".into(), Value::Object(fl));
+    }
     let inputs = crate::props::c09::gen_inputs(ch, &al, 6);
     let mut ids = vec![];
     let mut seen = std::collections::BTreeSet::new();
@@ -278,7 +291,7 @@ pub fn gen_lex_pair(ch: &mut Choices, id: u64) -> Pair {
         kind: "LexOnly".into(),
         ytext: String::new(),
         ltext,
-        settings: serde_json::Map::new(),
+        settings,
         inputs,
         rules: vec![],
         ident_tokens: vec![],
@@ -315,7 +328,7 @@ fn write_batch(dir: &Path, pairs: &[Pair]) {
     for p in pairs {
         if p.kind == "LexOnly" {
             std::fs::write(gen_dir.join(format!("x{}.l", p.id)), &p.ltext).unwrap();
-            lexers.push(json!({"id": p.id, "ids": p.ids, "inputs": p.inputs}));
+            lexers.push(json!({"id": p.id, "ids": p.ids, "inputs": p.inputs, "settings": p.settings}));
             continue;
         }
         std::fs::write(gen_dir.join(format!("g{}.y", p.id)), &p.ytext).unwrap();
@@ -474,7 +487,7 @@ pub fn custom_run(cfg: &RunCfg) -> i32 {
             "disagreements_checked": comparisons,
             "evaluations": comparisons,
             "distinct_nontrivial": nontrivial.len(),
-            "rule": "Pairs (grammar, lexer) whose token names agree: AG from strata rand/expr/lr1/repo (cycle-free, loop-free tables, random precedence and %avoid_insert), kinds Grmtools (user actions from a fixed template recording production, $span, every $i as Ok/Err lexeme or child string, $lexer and $$), Original(GenericParseTree), Original(NoAction); settings sampled: yacckind through builder or %grmtools header, recoverer CPCT+/None through builder and/or header, serialisation format, Rust edition, visibility, lexer flags through builder or header; 7 inputs per pair (sentences, near misses, upper-cased words, multi-line skip text, a lexing error). One cargo build of engine/ctbatch runs the real CTLexerBuilder/CTParserBuilder per pair in its build script; its binary lexes and parses every input with the generated modules and with LRNonStreamingLexerDef/RTParserBuilder built from the same source strings (user actions evaluated natively) and compares lexemes, value/tree, errors with repair sets, token_epp, R_*/N_* constants; each module's first parse is also made by 8 barrier-released threads (C15). programs = pairs compiled and run; disagreements_checked = comparisons. Besides the pairs, 60 (thorough: 80 per batch) lexer-only items: a specification from the lexer generators of C09/C11 (start states with push/pop/replace targets, <..> prefixes, every kind of escape, flags in a %grmtools section, varied rendering) built by CTLexerBuilder with a user-supplied rule_ids_map; the generated module's definition (rules: id, name, expression, start states, target; start states) and its lexemes on 6 inputs sampled from the rules must equal those of LRNonStreamingLexerDef::from_str + set_rule_ids on the same text, and one side refusing what the other accepts is a mismatch. Non-trivial pair: non-default setting or an input with a lexing error, or a lexer-only item; distinct by hash(sources).",
+            "rule": "Pairs (grammar, lexer) whose token names agree: AG from strata rand/expr/lr1/repo (cycle-free, loop-free tables, random precedence and %avoid_insert), kinds Grmtools (user actions from a fixed template recording production, $span, every $i as Ok/Err lexeme or child string, $lexer and $$), Original(GenericParseTree), Original(NoAction); settings sampled: yacckind through builder or %grmtools header, recoverer CPCT+/None through builder and/or header, serialisation format, Rust edition, visibility, lexer flags through builder or header; 7 inputs per pair (sentences, near misses, upper-cased words, multi-line skip text, a lexing error). One cargo build of engine/ctbatch runs the real CTLexerBuilder/CTParserBuilder per pair in its build script; its binary lexes and parses every input with the generated modules and with LRNonStreamingLexerDef/RTParserBuilder built from the same source strings (user actions evaluated natively) and compares lexemes, value/tree, errors with repair sets, token_epp, R_*/N_* constants; each module's first parse is also made by 8 barrier-released threads (C15). programs = pairs compiled and run; disagreements_checked = comparisons. Besides the pairs, 60 (thorough: 80 per batch) lexer-only items: a specification from the lexer generators of C09/C11 (start states with push/pop/replace targets, <..> prefixes, every kind of escape, flags in a %grmtools section or - one third - through the builder's flag methods, varied rendering) built by CTLexerBuilder with a user-supplied rule_ids_map; the generated module's definition (rules: id, name, expression, start states, target; start states) and its lexemes on 6 inputs sampled from the rules must equal those of LRNonStreamingLexerDef::from_str + set_rule_ids on the same text, and one side refusing what the other accepts is a mismatch. Non-trivial pair: non-default setting or an input with a lexing error, or a lexer-only item; distinct by hash(sources).",
             "samples": samples,
             "classes": classes,
             "replayed": replay_pairs.len(),
